@@ -9,6 +9,8 @@ Variants == [k : {"tuple", "named"}, n : 0..MaxFields] \cup {[k |-> "unit", n |-
 \* (one struct size beyond MaxFields: three fields, whose types repeat A, B, A)
 StructShapes == {[enum |-> FALSE, vs |-> <<v>>] : v \in {w \in Variants : w.k # "unit" /\ w.n >= 1}}
                 \cup {[enum |-> FALSE, vs |-> <<[k |-> kk, n |-> MaxFields + 1]>>] : kk \in {"tuple", "named"}}
+                \* (and a wide one: thirteen fields - one more than the tuples std implements its traits for)
+                \cup {[enum |-> FALSE, vs |-> <<[k |-> kk, n |-> 13]>>] : kk \in {"tuple", "named"}}
 EnumShapes == {[enum |-> TRUE, vs |-> <<v>>] : v \in Variants}
               \cup {[enum |-> TRUE, vs |-> <<v, w>>] : v \in Variants, w \in Variants}
               \cup {[enum |-> TRUE, vs |-> <<v, w, [k |-> "unit", n |-> 0]>>] : v \in Variants, w \in Variants}
